@@ -56,19 +56,19 @@ type Exec struct {
 	preempt  int
 
 	// result
-	CutByCache  bool
-	Deadlock    string
-	PanicVal    string
-	PanicStack  string
-	HorizonHit  bool
-	Diverged    string
-	MainDone    bool
-	steps       int
-	maxSteps    int
-	wg          sync.WaitGroup
-	finished    chan struct{}
-	finishOnce  sync.Once
-	mu          sync.Mutex // protects nothing during normal running (baton); used in abort
+	CutByCache bool
+	Deadlock   string
+	PanicVal   string
+	PanicStack string
+	HorizonHit bool
+	Diverged   string
+	MainDone   bool
+	steps      int
+	maxSteps   int
+	wg         sync.WaitGroup
+	finished   chan struct{}
+	finishOnce sync.Once
+	mu         sync.Mutex // protects nothing during normal running (baton); used in abort
 }
 
 // E is the execution in progress (nil outside Run). Shim operations outside
